@@ -1,4 +1,5 @@
 import Proofs.Machine.Run
+import Proofs.Machine.Streaming
 /-!
 C11 — output is streamed: bounded lag behind the input, never revised.
 
@@ -51,6 +52,43 @@ theorem context_line_flushes {cfg : Cfg} {ls : List L} {m : M} (e : runFrom cfg 
 theorem lag_bounded {cfg : Cfg} {ls : List L} {m : M} (e : runFrom cfg {} ls = .ok m) :
     m.minus.length ≤ cfg.bufSize + 1 ∧ m.plus.length ≤ cfg.bufSize + 1 :=
   runFrom_lag ls e good_init ⟨by simp, by simp⟩
+
+/-- **`inside_hunk_all_written`** (whole runs): for every configuration and every prefix of every
+input — every point at which the producer may pause — if the prefix ends inside a hunk (the state is
+one of the hunk-line states), then nothing painted is waiting in the output buffer: the rows not yet
+written are exactly the open run of removed and added lines, and that run holds at most
+`line-buffer-size + 1` lines of each kind. (`Proofs/Machine/Streaming.lean`: every handler ends
+outside the hunk-line states, or ends with `painter.emit`, or leaves state and buffer alone.) -/
+theorem inside_hunk_all_written {cfg : Cfg} {ls : List L} {m : M} (e : runFrom cfg {} ls = .ok m)
+    (hb : isHunkBody m.st = true) :
+    timeline m = m.out ++ m.minus.map HLine.row ++ m.plus.map HLine.row ∧
+      m.minus.length ≤ cfg.bufSize + 1 ∧ m.plus.length ≤ cfg.bufSize + 1 :=
+  ⟨(Machine.inside_hunk_all_written e hb).2, lag_bounded e⟩
+
+/-- … and after an unchanged line nothing at all is held back: everything rendered so far has been
+written. -/
+theorem after_context_line_all_written {cfg : Cfg} {ls : List L} {m : M} (e : runFrom cfg {} ls = .ok m)
+    (hz : ∃ dt, m.st = .hunkZero dt) : timeline m = m.out := by
+  obtain ⟨dt, h⟩ := hz
+  obtain ⟨hm, hp⟩ := context_line_flushes e ⟨dt, h⟩
+  have := (Machine.inside_hunk_all_written e (by rw [h]; rfl)).2
+  simpa [hm, hp] using this
+
+private def mkL (s : String) : L :=
+  { raw := s.toList, text := s.toList, graphemes := [], commitRe := false, blame := false, grep := 0, submodule := none }
+
+/-- the hypotheses are met by ordinary prefixes, with a non-empty open run: after `-a`, `-b` two
+rows are held and everything before them (header rows, the context line) is out -/
+example : (match runFrom {} {} (["diff --git a/x b/x", "--- a/x", "+++ b/x", "@@ -1,3 +1,2 @@", " ctx", "-a", "-b"].map mkL) with
+    | .ok m => isHunkBody m.st && m.minus.length == 2 && m.buf.isEmpty && m.out.length ≥ 3
+    | .error _ => false) = true := by decide
+
+/-- outside a hunk the buffer may hold painted rows for one more line: at a `diff` line that ends a
+run of changed lines the run is painted but written with the next emission (the statement is about
+prefixes that end inside a hunk) -/
+example : (match runFrom {} {} (["diff --git a/x b/x", "--- a/x", "+++ b/x", "@@ -1,2 +1,1 @@", " ctx", "-a", "diff --git a/y b/y"].map mkL) with
+    | .ok m => !isHunkBody m.st && m.buf.length == 1
+    | .error _ => false) = true := by decide
 
 /-- Merge-conflict regions are the exception the statement does not mention: their lines are kept
 in separate buffers until the closing marker (by design; recorded as a known finding). In the
